@@ -89,15 +89,3 @@ Definition pinned_decls_stree : list string :=
 
 Definition ok_stree : Prop :=
   of_file fst "stree.go" InvStree.inventory = pinned_stree /\ of_file (fun s => s) "stree.go" InvStree.decls = pinned_decls_stree.
-
-Lemma C01_inventory_stree : InvStree.files = pinned_files /\ ok_stree /\ ok_node.
-Proof. unfold ok_stree, ok_node; repeat split; vm_compute; reflexivity. Qed.
-
-Lemma C02_inventory_stree : InvStree.files = pinned_files /\ ok_stree /\ ok_node.
-Proof. unfold ok_stree, ok_node; repeat split; vm_compute; reflexivity. Qed.
-
-Lemma C03_inventory_stree : InvStree.files = pinned_files /\ ok_cursor /\ ok_stree /\ ok_node.
-Proof. unfold ok_cursor, ok_stree, ok_node; repeat split; vm_compute; reflexivity. Qed.
-
-Lemma C04_inventory_stree : InvStree.files = pinned_files /\ ok_stree /\ ok_node /\ ok_cursor.
-Proof. unfold ok_stree, ok_node, ok_cursor; repeat split; vm_compute; reflexivity. Qed.
